@@ -21,46 +21,20 @@ REACH = {"C25": ("ReRegisterWhileClaimed", "ReRegisterRefused", "BridgeDataBothW
 THIRDS = [0, 11, 22, 32]
 
 
-def _cached(name, fn):
-    """development aid, off by default: with RELAY_TLC_CACHE=<dir> the TLC results (which depend on spec/ only, not on the
-    tree under test) are reused between runs, e.g. when a series of mutants is checked.  The key covers every spec file."""
-    d = os.environ.get("RELAY_TLC_CACHE")
-    if not d:
-        return fn()
-    import hashlib, pickle
-    h = hashlib.sha256()
-    for f in sorted(os.listdir(vlib.SPEC)):
-        if f.startswith(("Relay", "MC_Relay", "TraceKit")) and "TTrace" not in f:
-            h.update(f.encode() + open(os.path.join(vlib.SPEC, f), "rb").read())
-    path = os.path.join(d, "%s-%s.pkl" % (name, h.hexdigest()[:16]))
-    if os.path.exists(path):
-        log("[tlc] %s: result taken from RELAY_TLC_CACHE" % name)
-        return pickle.load(open(path, "rb"))
-    v = fn()
-    os.makedirs(d, exist_ok=True)
-    pickle.dump(v, open(path + ".tmp", "wb"))
-    os.replace(path + ".tmp", path)
-    return v
-
-
 def model_check(chk, thorough):
-    if not os.environ.get("RELAY_TLC_CACHE"):
-        return _model_check(chk, thorough)[0:2]
-    hists, hists2, cov = _cached("model-%s-%s" % (chk.pid, chk.tier), lambda: _model_check(chk, thorough))
-    for k in ("states", "transitions", "models", "scenarios_reached_in_model"):
-        chk.cov[k] = cov[k]
-    chk.cov["note_model_results"] = "TLC results reused from RELAY_TLC_CACHE (development mode)"
-    return hists, hists2
-
-
-def _model_check(chk, thorough):
     """design => contract; returns the state-cover histories of the model and of its as-found variant"""
     r, hists = vlib.dump_hists("Relay", "MC_Relay.cfg", workers=vlib.NCPU, timeout=2400)
     chk.add_model("Relay design=>contract, 3 clients x 2 ids, exhaustive (REGISTER/CONNECT/identity in 1-3 fragments/pipelined "
                   "identity+data/data/other lines/disconnect at every stage)", r, "invariants " + INV_C25 + " " + INV_C26 + " D_RegistryConsistent")
     # the code as found (REGISTER accepted from a claimed peer) must violate the contract in the model
+    # (the counterexample TLC prints is kept as a witness history: it is replayed on the real server in every run)
+    witnesses = []
     for cfg, inv in (DEV[chk.pid] if thorough else DEV[chk.pid][:2]):
-        vlib.mc("Relay", "MC_Relay_%s.cfg" % cfg, expect_violation=inv, workers=8, timeout=1500)
+        rd = vlib.mc("Relay", "MC_Relay_%s.cfg" % cfg, expect_violation=inv, workers=8, timeout=1500)
+        w = last_hist(rd.out)
+        if not w:
+            raise vlib.MachineryError("no counterexample history in the output of MC_Relay_%s.cfg" % cfg)
+        witnesses.append(w)
     # vacuity: every scenario the invariants are about is reachable (one run, ReachAll prints the names it meets)
     rr = vlib.mc("Relay", "MC_Relay_reach.cfg", workers=8, timeout=1800)
     seen = set(re.findall(r'<<"REACHED", "(\w+)">>', rr.out))
@@ -78,7 +52,17 @@ def _model_check(chk, thorough):
     if thorough:
         r3 = vlib.mc("Relay", "MC_Relay_thorough.cfg", workers=vlib.NCPU, timeout=2400)
         chk.add_model("Relay design=>contract, 4 clients x 2 ids, <= 8 client steps", r3, "bounded")
-    return hists, hists2, chk.cov
+    return hists, hists2, witnesses
+
+
+def last_hist(out):
+    """the value of hist in the last state of the error trace TLC printed"""
+    i = out.rfind("/\\ hist = ")
+    if i < 0:
+        return None
+    txt = out[i + len("/\\ hist = "):]
+    m = re.search(r"\n(/\\ |\s*\n|State \d+|Error|\d+ states generated)", txt)
+    return vlib.parse_tla((txt[:m.start()] if m else txt).strip())
 
 
 # ---- model history -> script --------------------------------------------------------------------------
@@ -359,8 +343,15 @@ def model_drift(hists, events):
 def run(chk):
     thorough = chk.tier == "thorough"
     rng = chk.rng
-    hists, hists2 = model_check(chk, thorough)
-    log("[gen] %d state-cover histories of the model, %d of its as-found variant" % (len(hists), len(hists2)))
+    hists, hists2, witnesses = model_check(chk, thorough)
+    log("[gen] %d state-cover histories of the model, %d of its as-found variant, %d witness histories" % (len(hists), len(hists2), len(witnesses)))
+    # named corner cases that are part of every run: TLC's counterexamples of the deviation configs and the as-found
+    # histories that end in an identity arriving for a connector whose target is gone (C26: the server must survive it)
+    gone_target = [h for h in hists2 if h and h[-1]["op"] in ("id", "con") and h[-1]["res"] == "err" and
+                   (h[-1]["op"] == "id" or h[-1].get("pipe", 0) > 0) and len(h) > 1 and h[-1]["sc"] < h[-2]["sc"]]
+    corner = witnesses + rng.sample(gone_target, min(len(gone_target), 40 if not thorough else 400))
+    run_and_validate(chk, [hist_to_script(h, rng).done() for h in corner] +
+                     [hist_to_script(h, rng).lines + ["send c=%d p=tok:9" % c for c in (1, 2, 3)] + ["final"] for h in witnesses], "tlc-witnesses")
     k1, k2 = (1500, 1000) if not thorough else (12000, 8000)
     # the longest as-found histories are the ones that run through the deviation; always keep a good share of them
     h1 = rng.sample(hists, min(len(hists), k1))
